@@ -1,4 +1,4 @@
------------------------------ MODULE ReplayData -----------------------------
+----------------------------- MODULE ReplayCore -----------------------------
 (* Runs given label sequences (labels.ndjson: one JSON array of labels per line) through Core and
    prints each as a schedule with the specification's predictions - used for hand-written regression
    scenarios and for turning a TLC counterexample into something the driver can execute. A label that
